@@ -9,6 +9,7 @@ GTF = ['FIX8::GeneratedTable<K,V>::_find', 'find_pair_ptr', 'find_ptr', 'at', 'F
 SETF = ['FIX8::presorted_set<K,T,Comp>::insert(const_iterator)', 'find(K)', 'find(K) const', 'find(K, bool&)', 'find(T, bool&)', 'clear', 'calc_reserve', 'begin/end/size/rsize', 'std::equal_range (header code)']
 PSF = ['FIX8::presorted_set<unsigned short, FieldTrait, FieldTrait::Compare> (Presence): insert(const_iterator)', 'insert(range)', 'find(key)', 'find(key) const', 'find(FieldTrait)', 'find(FieldTrait) const',
        'find(key, bool&)', 'find(FieldTrait, bool&)', 'clear', 'hash-array constructor', 'copy constructor', 'FIX8::FieldTrait_Hash_Array::FieldTrait_Hash_Array']
+MEMSTUB = 'memcpy/memmove/memset with non-constant length := element-wise loops defined in the harness (ISO C semantics; lengths asserted to be whole elements within range)'
 NEWSTUB = 'operator new[] := fresh heap object of exactly the requested size (case split on the element count; never fails); operator delete[] := free'
 MEMFLAGS = ('-O1', '-fsanitize=address,undefined', '-fno-sanitize-recover=undefined', '-fno-access-control')
 
@@ -48,10 +49,10 @@ def run(ctx):
     ns = 3 if not thorough else 4
     for st, nm, fn in ((0, 'generic', SETF), (1, 'presence', PSF)):
         for op, onm in ((0, 'insert'), (1, 'find'), (2, 'clear'), (4, 'ctor')) + (((3, 'insert_range'),) if st == 1 else ()):
-            hs.append(Harness('C12_set_%s_%s' % (nm, onm), S, defines=defs + T + ['SET=%d' % st, 'OP=%d' % op, 'NS=%d' % ns], unwind=ns + 2, unwindset=['x__Znam.0:%d' % (2 * ns + 5)], timeout=900 if not thorough else 2400, functions=fn, stubs=[NEWSTUB],
+            hs.append(Harness('C12_set_%s_%s' % (nm, onm), S, defines=defs + T + ['SET=%d' % st, 'OP=%d' % op, 'NS=%d' % ns], unwind=(ns + 2 if op in (1, 2) else 2 * ns + 4), unwindset=['x__Znam.0:%d' % (2 * ns + 5), 'memcpy.0:%d' % (2 * ns + 4), 'memmove.0:%d' % (2 * ns + 4), 'memmove.1:%d' % (2 * ns + 4)], timeout=900 if not thorough else 2400, functions=fn, stubs=[NEWSTUB, MEMSTUB],
                               bounds='any state with size <= reserved size <= %d, reserved size >= 1, strictly ascending keys (all 16-bit values), reserve percentage 0..100, array allocated or (empty set) still deferred; any key' % ns,
                               desc='one step from any state satisfying the representation invariant'))
-    hs.append(Harness('C12_hash_array', VERIF + '/harness/C12_hash.c', defines=defs + T + ['NT=%d' % (4 if not thorough else 8), 'TAGMAX=%d' % (32 if not thorough else 64)], unwind=10, unwindset=['x__Znam.0:%d' % (34 if not thorough else 66), 'x__Znam.1:20'], timeout=900 if not thorough else 2400, functions=PSF, stubs=[NEWSTUB],
+    hs.append(Harness('C12_hash_array', VERIF + '/harness/C12_hash.c', defines=defs + T + ['NT=%d' % (4 if not thorough else 8), 'TAGMAX=%d' % (32 if not thorough else 64)], unwind=10, unwindset=['x__Znam.0:%d' % (34 if not thorough else 66), 'x__Znam.1:20', 'memcpy.0:%d' % (10 if not thorough else 18), 'memset.0:%d' % (34 if not thorough else 66)], timeout=900 if not thorough else 2400, functions=PSF, stubs=[NEWSTUB, MEMSTUB],
                       bounds='any strictly ascending trait table of 1 <= n <= %d tags below %d, every key 0..65535, arbitrary previous contents of the set object' % (4 if not thorough else 8, 32 if not thorough else 64),
                       desc='hash array contents, lookups through it, constructed state, copy'))
     for h in hs:
